@@ -4,6 +4,10 @@ Oracle: round trip (decompress∘compress == id) plus the cap predicate
 ``returns x iff len(x) <= cap else DecompressionLimitExceeded``, evaluated on
 frames made by the repo's compressor, by independent one-shot / streaming
 library compressors and by pyarrow's CompressedOutputStream.
+
+Family ``ratio``: 1-4 MiB repeats of a 1-3 byte block (expansion > 1000:1) with the cap at len-1 / len or tied to the
+frame length (k x len(frame)): a decoder reasoning about a maximum expansion ratio instead of counting output bytes is
+only wrong in that band.
 """
 
 from __future__ import annotations
